@@ -14,7 +14,11 @@ def gen_rep(r, size):
         hi = lo
     item = parsegen.gen_item(r, size)
     sep = r.choice([['one', 'Comma'], ['one', 'Comma'], ['maybe', ['one', 'Comma']], ['seq', 'Comma', 'Comma'], 'empty', ['one', 'B']])
-    stop = r.choice([['one', 'C'], ['one', 'C'], ['any', 'C', 'Comma'], 'eot', ['seq', 'A', 'C'], ['both', ['one', 'Comma'], ['one', 'C']]])
+    # stop parsers, including ones that overlap the item / separator grammar (the stop parser must be tried AT the item
+    # boundary, before the separator: a stop that matches an item, or a separator followed by an item, tells the two apart)
+    stop = r.choice([['one', 'C'], ['one', 'C'], ['any', 'C', 'Comma'], 'eot', ['seq', 'A', 'C'], ['both', ['one', 'Comma'], ['one', 'C']],
+                     ['one', 'B'], ['one', 'A'], ['both', ['one', 'Comma'], ['one', 'B']], ['both', ['one', 'Comma'], ['one', 'A']],
+                     ['seq', 'Comma', 'A']])
     if k in ('repeat', 'repeatcount'): return [k, lo, hi, item]
     if k in ('repeatuntil', 'repeatcountuntil'): return [k, lo, hi, stop, item]
     if k in ('intersperse', 'interspersecount'): return [k, lo, hi, item, sep]
@@ -26,7 +30,7 @@ class C07(C06):
     files = ['tephra-combinator/src/repeat.rs']
     rule = ('seeded random repetition parsers: each of the nine repeat/intersperse variants x bounds 0 <= low <= high <= 4 and '
             'unbounded x non-nullable item parsers from the C06 family x separators (token, optional token, double token, empty, '
-            'letter) x stop parsers, alone and embedded in sequences, on random token strings with runs of items, dangling '
+            'letter) x stop parsers (disjoint from and overlapping with the item and separator grammar), alone and embedded in sequences, on random token strings with runs of items, dangling '
             'separators, stop tokens and a rejected char; accept/reject, value (items or count), remaining stream compared with a '
             'python greedy-loop reference; non-trivial = >= 1 item taken and the repetition stopped before the end of the text, or '
             'a failure; distinct by case')
@@ -51,6 +55,14 @@ class C07(C06):
                         g[2] = g[1]
                 g = ['repeat', 0, 'inf', ['either', ['left', g, ['one', 'Semi']], ['any', 'A', 'B', 'C', 'Comma', 'Semi']]]
             t = spangen.random_text(r, alpha, 14 if tier == 'quick' else 30)
+            if k == 3:
+                # until-variants whose stop parser overlaps the items / "separator then item": where the stop parser is
+                # probed (at the item boundary, before the separator) decides the result
+                lo = r.below(3); hi = r.choice(['inf', 'inf', lo + 1, lo + 2])
+                item = r.choice([['any', 'A', 'B'], ['one', 'A'], ['either', ['one', 'A'], ['one', 'B']]])
+                stop = r.choice([['one', 'B'], ['both', ['one', 'Comma'], ['one', 'B']], ['seq', 'Comma', 'A'], ['one', 'A']])
+                g = [r.choice(['intersperseuntil', 'interspersecountuntil']), lo, hi, stop, item, r.choice([['one', 'Comma'], ['maybe', ['one', 'Comma']]])]
+                t = spangen.random_text(r, ['a', 'a', 'b', 'b', 'comma', 'comma', 'comma', 'sp', 'c'], 10)
             n += 1
             out.append(parsegen.parse_case('c%d' % n, t, g, flt=r.choice([['drop', 'Ws'], ['drop', 'Ws'], 'none']), sink=r.below(2)))
         return out
